@@ -40,28 +40,24 @@ def unop (F : FieldImpl) (op : String) (a : Nat) : String :=
   | "exp7" => if F.name == "f64" then elem F (Gen.F64.exp7 a) else "bad-op"
   | _ => "bad-op"
 
-/-- one step of an operation sequence on (acc, y) -/
-def seqStep (F : FieldImpl) (st : Option (Nat × Nat)) (op : String) : Option (Nat × Nat) :=
-  match st with
-  | none => none
-  | some (acc, y) =>
-    match op with
-    | "add" => some (F.add acc y, y)
-    | "sub" => some (F.sub acc y, y)
-    | "mul" => some (F.mul acc y, y)
-    | "neg" => some (F.neg acc, y)
-    | "dbl" => some (F.double acc, y)
-    | "sq" => some (F.mul acc acc, y)
-    | "swap" => some (y, acc)
-    | "ms3" => if F.name == "f64" then some (Gen.F64.mul_small acc 3, y) else some (acc, y)
-    | "ms" => if F.name == "f64" then some (Gen.F64.mul_small acc 4294967295, y) else some (acc, y)
-    | "inv" => match F.inv acc with
-      | .done r => some (r, y)
-      | .out => none
-    | "div" => match F.div acc y with
-      | .done r => some (r, y)
-      | .out => none
-    | _ => some (acc, y)
+/-- parse one token of an operation sequence -/
+def seqOp? : String → Option FieldImpl.SeqOp
+  | "add" => some .add
+  | "sub" => some .sub
+  | "mul" => some .mul
+  | "neg" => some .neg
+  | "dbl" => some .dbl
+  | "sq" => some .sq
+  | "swap" => some .swap
+  | "inv" => some .inv
+  | "div" => some .div
+  | "ms3" => some (.mulSmall 3)
+  | "ms" => some (.mulSmall 4294967295)
+  | _ => none
+
+/-- `mul_small` exists for the 64-bit field only; the harness skips it elsewhere -/
+def mulSmallOf (F : FieldImpl) : Nat → Nat → Nat :=
+  if F.name == "f64" then Gen.F64.mul_small else fun a _ => a
 
 def handleF (F : FieldImpl) : List String → String
   | ["bin", op, a, b] =>
@@ -127,9 +123,12 @@ def handleF (F : FieldImpl) : List String → String
   | "seq" :: a :: b :: ops =>
     match a.toNat?, b.toNat? with
     | some a, some b =>
-      match ops.foldl (seqStep F) (some (F.new a, F.new b)) with
-      | some (acc, y) => s!"{elem F acc} {elem F y} {boolStr (F.eq acc y)}"
-      | none => "hang"
+      match ops.mapM seqOp? with
+      | none => "bad-op"
+      | some ops =>
+        match F.runSeq (mulSmallOf F) a b ops with
+        | some (acc, y) => s!"{elem F acc} {elem F y} {boolStr (F.eq acc y)}"
+        | none => "hang"
     | _, _ => "bad-op"
   | _ => "bad-op"
 
